@@ -586,9 +586,76 @@ func c02Reuse(c *Ctx, capN int, maxGraphN int, length int, withViable bool, clsN
 	}
 }
 
+// checkAutConsistency (no oracle for |Aut| needed): every generator is an automorphism, the returned orbits
+// are the orbits of the generated group; returns the order of the generated group.
+func checkAutConsistency(ac autCase) (int, *Failure) {
+	n, mask := ac.N, ac.Mask
+	mk := func(cl, what string) *Failure {
+		return &Failure{Class: "canonical-aut/" + cl, What: fmt.Sprintf("n=%d %s: %s", n, g6(n, mask), what), Kind: "aut-consistency", Replay: ac}
+	}
+	r, cl, what := runFull(n, mask, nil, false)
+	if cl != "" {
+		return 0, mk(cl, what)
+	}
+	for _, g := range r.gens {
+		if permuteMask(n, mask, g) != mask {
+			return 0, mk("generator-not-automorphism", fmt.Sprintf("generator %v", g))
+		}
+	}
+	size, orb := groupClosure(n, r.gens, 50000)
+	if !intsEq(orb, r.orbits) {
+		return 0, mk("orbits", fmt.Sprintf("returned orbits %v, orbits of the group generated by %v are %v", r.orbits, r.gens, orb))
+	}
+	if ac.AutSize > 0 && size != ac.AutSize {
+		return 0, mk("generators-do-not-generate-aut", fmt.Sprintf("generators %v generate %d elements, |Aut| = %d", r.gens, size, ac.AutSize))
+	}
+	return size, nil
+}
+
+// c02Reps: every isomorphism class on 8 vertices (representatives from the library's search, as input generator)
+// under all transpositions, reversal, rotation and pseudo-random relabellings; the group order must be the same
+// for every relabelling, and equal to the brute-force |Aut| (thorough).
+func c02Reps(c *Ctx) {
+	n := 8
+	reps := classReps(n)
+	ps := relabelBattery(n, true, 6)
+	var perms [][]int
+	if c.Thorough() {
+		perms = allPerms(n)
+	}
+	c.parFor(int64(len(reps)), 16, func(lo, hi int64) {
+		for _, m := range reps[lo:hi] {
+			want := 0
+			if perms != nil {
+				want = len(bruteAut(n, m, nil, perms))
+			}
+			ac := autCase{N: n, Mask: m, G6: g6(n, m), AutSize: want}
+			size, f := checkAutConsistency(ac)
+			c.Evals(1)
+			if f != nil {
+				c.Check(func() *Failure { _, f := checkAutConsistency(ac); return f })
+				continue
+			}
+			for _, p := range ps {
+				ac2 := autCase{N: n, Mask: permuteMask(n, m, p), AutSize: size}
+				ac2.G6 = g6(n, ac2.Mask)
+				c.Evals(1)
+				if _, f := checkAutConsistency(ac2); f != nil {
+					c.Check(func() *Failure { _, f := checkAutConsistency(ac2); return f })
+				}
+			}
+			if size > 1 {
+				c.Nontrivial(int64(len(ps)) + 1)
+			}
+		}
+	})
+	c.SetCount("class_representatives_n8", int64(len(reps)))
+	c.SetCount("relabellings_per_representative_n8", int64(len(ps)))
+}
+
 func runC02(c *Ctx) {
 	c.Level = "exploration"
-	c.Rule = "every labelled graph on n vertices through CanonicalIsomorphFull(g, nil): generators are automorphisms, generate a group of order |Aut(g)| (= n!/|isomorphism class|, from an explicit orbit sweep; brute force for n <= 6) whose orbits are the returned partition; every sequence of graphs through one reused storage/partition pair compared with fresh calls; every (graph, ordered vertex-class partition) pair against brute-force class-preserving automorphisms and invariance under the generators of S_n; non-trivial = |Aut| > 1, reuse sequence with differing sizes, or class pair"
+	c.Rule = "every labelled graph on n vertices through CanonicalIsomorphFull(g, nil): generators are automorphisms, generate a group of order |Aut(g)| (= n!/|isomorphism class|, from an explicit orbit sweep; brute force for n <= 6) whose orbits are the returned partition; every isomorphism class on 8 vertices under 36 relabellings (generators are automorphisms, orbits are those of the generated group, group order constant over relabellings and equal to brute force in thorough); every sequence of graphs through one reused storage/partition pair compared with fresh calls; every (graph, ordered vertex-class partition) pair against brute-force class-preserving automorphisms and invariance under the generators of S_n; non-trivial = |Aut| > 1, reuse sequence with differing sizes, or class pair"
 	maxNil, maxCls := 6, 5
 	if c.Thorough() {
 		maxNil, maxCls = 7, 6
@@ -603,6 +670,7 @@ func runC02(c *Ctx) {
 		c02Reuse(c, 5, 5, 2, false, 3)
 		c02Reuse(c, 4, 4, 3, false, 2)
 	}
+	c02Reps(c)
 	c02Classes(c, maxCls)
 	c.Sample("nil-classes", autCase{N: 6, Mask: 0x4c31, G6: g6(6, 0x4c31)})
 	c.Assume("vertex classes are passed as lists covering every vertex exactly once; class lists in ascending or descending order")
@@ -619,6 +687,13 @@ func replayC02(kind string, raw json.RawMessage) *Failure {
 			return checkAut(ac, allPerms(ac.N))
 		}
 		return checkAutBySize(ac)
+	case "aut-consistency":
+		var ac autCase
+		if err := json.Unmarshal(raw, &ac); err != nil {
+			return &Failure{Class: "replay/bad-file", What: err.Error()}
+		}
+		_, f := checkAutConsistency(ac)
+		return f
 	case "class-invariance":
 		var ac autCase
 		if err := json.Unmarshal(raw, &ac); err != nil {
